@@ -27,7 +27,15 @@ func c10PreloadMeta(b string) http.Header {
 		"x-amz-acl", "public-read", "x-amz-storage-class", "STANDARD", "x-amz-tagging", "a=b", "x-amz-website-redirect-location", "/elsewhere")
 }
 
-var c10Preload = []string{"k", "d/x", "d/y", "d/e/z", "other", ".dot/file"}
+var c10Preload = []string{"k", "d/x", "d/y", "d/e/z", "other", ".dot/file", "empty", "d/empty0"}
+
+// c10PreloadBody: two of the preloaded objects are zero-length ("folder markers").
+func c10PreloadBody(b, k string) []byte {
+	if strings.Contains(k, "empty") {
+		return nil
+	}
+	return []byte("preload:" + b + "/" + k)
+}
 
 // storeSnapshot renders the whole store as a map of independent entries so
 // that a diff can say exactly what changed.
@@ -140,7 +148,7 @@ func hostileKeys() []string {
 		long255, long256, "dir/" + long255, "dir/" + long256,
 		"_meta", "_meta/bucket/bkt-one", "bucket/bkt-one", "bucket/bkt-two", "metadata", "metadata/bkt-two/k", "buckets", "buckets/bkt-two/k", "../metadata/bkt-two/x",
 		"../../metadata/bkt-one/k", ".modtime-resolution", ".gofakes3-uploads", ".gofakes3-uploads/x", "uploads", "uploads/put-1", "../uploads/x", "../../uploads/x",
-		"bkt-two", "bkt-two/k", "bkt-one/k", "d", "d/x/deeper", "d/e", "k/under-a-file", "other/x/y",
+		"bkt-two", "bkt-two/k", "bkt-one/k", "d", "d/x/deeper", "d/e", "k/under-a-file", "other/x/y", "empty/under", "d/empty0/under", "empty/a/b",
 		"con", "nul", "é", "é", "ключ", "K", "D/X",
 	}
 }
@@ -319,7 +327,7 @@ func runC10(c *Ctx) {
 				}
 			}
 			for _, k := range c10Preload {
-				if p := s.Put(b, k, []byte("preload:"+b+"/"+k), c10PreloadMeta(b)); p.Status != 200 {
+				if p := s.Put(b, k, c10PreloadBody(b, k), c10PreloadMeta(b)); p.Status != 200 {
 					panic("harness: preload failed: " + p.String())
 				}
 			}
@@ -430,7 +438,7 @@ func runC10(c *Ctx) {
 					// rebuild the baseline so that later cases are judged on their own
 					for _, b := range buckets {
 						for _, k := range c10Preload {
-							s.Put(b, k, []byte("preload:"+b+"/"+k), c10PreloadMeta(b))
+							s.Put(b, k, c10PreloadBody(b, k), c10PreloadMeta(b))
 						}
 					}
 					baseline = storeSnapshot(s, probeBuckets, extra)
@@ -625,7 +633,7 @@ func runC10(c *Ctx) {
 								s.CreateBucket(b)
 							}
 							for _, k := range c10Preload {
-								s.Put(b, k, []byte("preload:"+b+"/"+k), c10PreloadMeta(b))
+								s.Put(b, k, c10PreloadBody(b, k), c10PreloadMeta(b))
 							}
 						}
 						s.Delete("bkt-one", "copied-from-internal")
